@@ -443,6 +443,35 @@ func runC04(e *Env) {
 	c04Graph(e, g, p)
 	c04Tokens(e, g, p)
 
+	// sequences of complete chord shapes: state that leaks from one list element into a later one
+	// (a semantic action returning a stale value) needs a particular neighbour pattern
+	shapes := []string{"C[2]", "Db[2]", "E#m[2]", "Fdim/G[2]", "A/Bb[2]", "B_2/C#[2,2/2]", "R[2]", "D[2]{m=m}", "2b[2]", "2m/2#[2]{m=m,n=n}"}
+	seqLen := 3
+	if e.Thorough {
+		seqLen = 4
+	}
+	var seqs []string
+	var sgen func(parts []string)
+	sgen = func(parts []string) {
+		if len(parts) >= 2 {
+			seqs = append(seqs, strings.Join(parts, " "))
+		}
+		if len(parts) == seqLen {
+			return
+		}
+		for _, sh := range shapes {
+			sgen(append(parts, sh))
+		}
+	}
+	sgen(nil)
+	mc.ParFor(len(seqs), func(i int) {
+		if !c04Text(e, p, seqs[i], false) {
+			c04Text(e, p, seqs[i], true)
+		}
+		e.R.Trace(1)
+	})
+	e.R.AddPart(ev.Part{Name: "chord-shape-sequences", Enumerated: fmt.Sprintf("every sequence of 2..%d complete chords over 10 chord shapes (plain, accidental, symbol, bass with/without accidental, `_` symbol, two durations, rest, metadata, degree notation): tree compared element by element", seqLen), Executions: int64(len(seqs)), Exhaustive: true})
+
 	// pumped loops
 	pump := func(k int) []string {
 		chords := strings.Repeat("C[2] ", k)
@@ -477,6 +506,20 @@ func runC04(e *Env) {
 			if l < 3 || e.Thorough || x0%7 == 0 {
 				cliTexts = append(cliTexts, b.String())
 			}
+		}
+	}
+	// a large input through the binary: nothing may be cut off
+	{
+		const n = 30000
+		big := strings.Repeat("1[2] ", n)
+		r := cli.In(big, "text", "conv", "degree")
+		e.R.Eval(2)
+		if got := strings.Count(string(r.Stdout), "- chord:"); !r.OK() || got != n {
+			e.R.Fail(ev.Fail{Class: "C04/suffix-dropped/cli-large-input", Msg: fmt.Sprintf("crd text conv degree on %d chords (%d bytes): exit %d, %d chords in the output", n, len(big), r.Exit, got), Kind: "text-cli", Case: textCase{"<" + fmt.Sprint(n) + " x '1[2] '>"}})
+		}
+		r2 := cli.In(big+"]", "text", "parse")
+		if why := failureShape(r2); why != "" {
+			e.R.Fail(ev.Fail{Class: "C04/accepts-non-sentence/cli-large-input", Msg: fmt.Sprintf("a stray ] after %d bytes of valid text is not refused: %s", len(big), why), Kind: "text-cli", Case: textCase{"<" + fmt.Sprint(n) + " x '1[2] '>]"}})
 		}
 	}
 	cliTexts = append(cliTexts, "C[2]", "R[2]", "Cm/C[2,2/2]{m=m}", "2b_2/2#[2]{a=b,c=d} R[2]", "C[2] ;x\nR[2]", "C[2]]", "C[2]{", "C[2", "C[2] C")
